@@ -78,13 +78,20 @@ func MakeDocs(specs []DocSpec, ridDesc bool) []refdb.Doc {
 	return docs
 }
 
+// pad returns n pseudo-random letters (incompressible, so that compressed block sizes and therefore block
+// offsets differ between documents and fractions).
 func pad(n int) string {
 	b := make([]byte, n)
+	x := uint32(n)*2654435761 + 12345
 	for i := range b {
-		b[i] = 'p'
+		x = x*1664525 + 1013904223
+		b[i] = byte('a' + (x>>24)%26)
 	}
 	return string(b)
 }
+
+// Pad is pad for harness packages.
+func Pad(n int) string { return pad(n) }
 
 // Splits returns all compositions of n (ways to split a sequence into consecutive bulks).
 func Splits(n int) [][]int {
